@@ -8,7 +8,7 @@
 (* (sort without carrier, integer beyond TLC's range) is reported in the    *)
 (* `skip` component, never as a failure.                                    *)
 (***************************************************************************)
-EXTENDS NormalForms
+EXTENDS Logics
 
 CONSTANT Cap             \* maximum number of interpretations per event
 
@@ -189,7 +189,6 @@ DerivedContract(e) ==
         ELSE Verdict(Fl("denotes_named_function", bad = {}), <<>>, IF bad = {} THEN -1 ELSE CHOOSE k \in bad : TRUE)
 
 \* ------------------------------------------------------------------ C12
-SeqSet(sq) == {sq[j] : j \in 1..Len(sq)}
 
 (* analyses of f: fv (names+sorts), atoms (terms), qf, sorts, custom sorts, six sizes *)
 AnalysesContract(e) ==
